@@ -30,3 +30,5 @@ Proof. reflexivity. Qed.
 
 Print Assumptions c14_or_update_closed_form.
 Print Assumptions c14_and_update_closed_form.
+Print Assumptions c14_single_input_identity.
+Print Assumptions c14_duplicates_tolerated.
